@@ -32,7 +32,10 @@ RULE = ("graphs over every node kind (pvf/zoo.py).  For each graph g: the "
         "that component changed must differ; per shard, child interpreters "
         "with other PYTHONHASHSEEDs recompute the keys of graphs rebuilt from "
         "JSON and of graphs unpickled from the parent: all must be identical."
-        "  Layouts: a wrapper whose data is replaced by an F-ordered copy or "
+        "  The reduction operation of every reduction swapped for each other "
+        "one changes the key; three tags attached to one axis in two orders "
+        "give one key (and, in the children, under every hash seed).  "
+        "Layouts: a wrapper whose data is replaced by an F-ordered copy or "
         "a strided view with equal contents keeps its key; the same memory "
         "read in F order (other contents) changes it.  History: a node keyed "
         "first and tagged afterwards gets the key of an equal, never keyed "
@@ -162,6 +165,63 @@ def case_oracle(case):
                     f = changed_key(n, n2, f"DataWrapper.data[{label}]")
                     if f:
                         return f, info
+        # ---- the reduction operation is part of the computation
+        from pytato import reductions as red
+        from pytato.scalar_expr import Reduce
+        from pymbolic.mapper import IdentityMapper
+        OPS = [red.SumReductionOperation, red.ProductReductionOperation,
+               red.MaxReductionOperation, red.MinReductionOperation,
+               red.AllReductionOperation, red.AnyReductionOperation]
+
+        class _Swap(IdentityMapper):
+            def __init__(self, new_op):
+                super().__init__()
+                self.new_op = new_op
+                self.hit = False
+
+            def map_reduce(self, expr):
+                self.hit = True
+                return Reduce(self.rec(expr.inner_expr), self.new_op(),
+                              expr.bounds)
+        for n in nodes:
+            if isinstance(n, pt.IndexLambda) and n.var_to_reduction_descr:
+                for op in OPS:
+                    sw = _Swap(op)
+                    try:
+                        e2 = sw(n.expr)
+                    except Exception:  # noqa: BLE001
+                        break
+                    if not sw.hit or e2 == n.expr:
+                        continue
+                    info["mutations"] += 1
+                    f = changed_key(n, dataclasses.replace(n, expr=e2),
+                                    f"IndexLambda.expr[reduction operation -> "
+                                    f"{op.__name__}]")
+                    if f:
+                        return f, info
+                break
+        # ---- several tags on one axis: the key does not depend on the
+        # order in which they were attached
+        from pvf.usertags import PvfTag, PvfTag2
+        for pick in picks:
+            i = min(int(pick * len(nodes)), len(nodes) - 1)
+            n = nodes[i]
+            if not isinstance(n, pt.Array) or n.ndim < 1:
+                continue
+            try:
+                t1 = n.with_tagged_axis(0, PvfTag("p")).with_tagged_axis(
+                    0, PvfTag2("q")).with_tagged_axis(0, PvfTag("r"))
+                t2 = n.with_tagged_axis(0, PvfTag("r")).with_tagged_axis(
+                    0, PvfTag2("q")).with_tagged_axis(0, PvfTag("p"))
+            except Exception:  # noqa: BLE001
+                continue
+            if t1 == t2:
+                info["axis_tag_orders"] = info.get("axis_tag_orders", 0) + 1
+                if key_of(t1) != key_of(t2):
+                    return Failure("equal-graphs-other-key",
+                                   f"{type(n).__name__}: three tags attached "
+                                   "to axis 0 in two orders: equal arrays, "
+                                   "different keys", "axis-tags"), info
         # ---- layouts: the key follows the logical contents, not the memory
         for n in nodes:
             if isinstance(n, pt.array.DataWrapper) and isinstance(
@@ -300,6 +360,16 @@ def run_children(items, hashseeds):
 @st.composite
 def cases(draw):
     spec = draw(zoo_programs())
+    # several tags (with string fields) on one axis of some operation nodes:
+    # their order of iteration depends on the hash seed, the key must not
+    ops = [n for n in spec["nodes"] if n["op"] not in (
+        "placeholder", "data", "sizeparam", "recv", "sendhold", "call_loopy",
+        "item", "fncall")]
+    for n in ops:
+        if draw(st.integers(0, 2)) == 0:
+            n.setdefault("tags", []).extend(
+                [["Axis", 0, "alpha"], ["Axis", 0, "beta"],
+                 ["Axis", 0, "gamma"]])
     n = draw(st.integers(1, 4))
     picks = [draw(st.integers(0, 999)) / 1000.0 for _ in range(n)]
     return {"spec": spec, "picks": picks}
